@@ -60,7 +60,8 @@ package redis
 //@   ensures @parsed result1 == nil ==> result0 != nil && result0.raw == raw && len(raw.body.Array) >= 2
 
 //@ func handleScan
-//@   prop C18 C11
+//@   prop C18 C11 C02
+//@   consumes req
 //@   requires req != nil && req.body != nil && u != nil
 
 //@ func (*scanRequest).Convert
@@ -85,16 +86,19 @@ package redis
 
 //@ func newSimpleRequest
 //@   prop C18 C03 C02
+//@   produces result
 //@   modifies nothing
 //@   ensures @fresh result != nil && fresh(result) && result.body == v && result.resp == nil && len(result.hooks) == 0 && cap(result.hooks) == 4 && fresh(result.hooks) && !closed(result.done) && result.done != nil
 
 //@ func newRawRequest
 //@   prop C02 C01
+//@   produces result
 //@   modifies nothing
 //@   ensures @fresh result != nil && fresh(result) && result.body == v && result.resp == nil && len(result.hooks) == 0 && cap(result.hooks) == 4 && fresh(result.hooks) && !closed(result.done) && result.done != nil
 
 //@ func (*simpleRequest).RegisterHook
 //@   prop C18 C02
+//@   consumes captured(hook)
 //@   requires r != nil
 //@   modifies r.hooks, r.hooks[len(r.hooks):cap(r.hooks)]
 //@   ensures @appended len(r.hooks) == old(len(r.hooks)) + 1
@@ -345,7 +349,8 @@ package redis
 //@   loop 0 invariant b == r.body && b.Type == 42 && len(b.Array) >= 1 && forall k int :: 0 <= k && k <= rangeindex ==> b.Array[k].Type == 36
 
 //@ func (*redisProc).handleRequest
-//@   prop C11 C14 C20
+//@   prop C11 C14 C20 C02
+//@   consumes req
 //@   requires p != nil && req != nil && req.body != nil
 //@   requires @handlers-wellformed forall k string :: has(p.cmdHdlrs, k) ==> p.cmdHdlrs[k] != nil
 //@   callpre field:commandHandler.handle @dispatch-only-registered-commands-on-validated-requests validbody(req.body) && has(p.cmdHdlrs, lower(str(req.body.Array[0].Text)))
@@ -358,11 +363,13 @@ package redis
 //@   ensures @lookup-lowercase result1 == has(p.cmdHdlrs, lower(cmd)) && (result1 ==> result0 == p.cmdHdlrs[lower(cmd)])
 
 //@ func handleSimpleCommand
-//@   prop C11 C03
+//@   prop C11 C03 C02
+//@   consumes req
 //@   requires u != nil && req != nil && validbody(req.body)
 
 //@ func handleEval
-//@   prop C11 C03
+//@   prop C11 C03 C02
+//@   consumes req
 //@   requires u != nil && req != nil && validbody(req.body)
 
 //@ func handleSumResultCommand
@@ -452,14 +459,17 @@ package redis
 
 //@ func (*client).handleResp
 //@   prop C04 C11 C02
+//@   consumes req
 //@   requires c != nil && req != nil && v != nil
 
 //@ func (*upstream).handleRedirection
-//@   prop C04 C11
+//@   prop C04 C11 C02
+//@   consumes req
 //@   requires u != nil && req != nil && resp != nil
 
 //@ func (*upstream).handleClusterDown
-//@   prop C04 C11
+//@   prop C04 C11 C02
+//@   consumes req
 //@   requires u != nil && req != nil && resp != nil
 
 //@ func (*upstream).doSlotsRefresh
@@ -481,13 +491,15 @@ package redis
 //@   loop 1 invariant (cap(slots) == 0 || fresh(slots)) && 0 <= start && start <= i && i <= end + 1 && end < 16384
 
 //@ func (*FilterChain).Do
-//@   prop C11 C13
+//@   prop C11 C13 C02
+//@   consumes r if result == "Stop"
 //@   requires c != nil && r != nil && r.body != nil && len(r.body.Array) >= 1
 //@   requires @filters-non-nil forall k int :: 0 <= k && k < len(c.filters) ==> c.filters[k] != nil
 //@   loop 0 assume c.filters == old(c.filters) && forall k int :: 0 <= k && k < len(c.filters) ==> c.filters[k] != nil
 
 //@ func (*hotKeyFilter).Do
-//@   prop C11 C19
+//@   prop C11 C19 C02
+//@   consumes req if result == "Stop"
 //@   requires f != nil && req != nil && req.body != nil
 
 //@ func (*hotKeyFilter).extractKey
@@ -496,7 +508,8 @@ package redis
 //@   modifies nothing
 
 //@ func (*compressFilter).Do
-//@   prop C11 C13
+//@   prop C11 C13 C02
+//@   consumes req if result == "Stop"
 //@   requires f != nil && req != nil && req.body != nil
 //@   requires @values-disjoint forall j int, k int :: 0 <= j && j < k && k < len(req.body.Array) ==> disjoint(req.body.Array[j].Text, req.body.Array[k].Text)
 
@@ -593,32 +606,38 @@ package redis
 // ---- C14: commands answered by the proxy itself never reach a backend -----------------------------
 
 //@ func handlePing
-//@   prop C14
+//@   prop C14 C02
+//@   consumes req
 //@   nocall MakeRequest
 //@   nocall Send
 
 //@ func handleQuit
-//@   prop C14
+//@   prop C14 C02
+//@   consumes req
 //@   nocall MakeRequest
 //@   nocall Send
 
 //@ func handleSelect
-//@   prop C14
+//@   prop C14 C02
+//@   consumes req
 //@   nocall MakeRequest
 //@   nocall Send
 
 //@ func handleInfo
-//@   prop C14
+//@   prop C14 C02
+//@   consumes req
 //@   nocall MakeRequest
 //@   nocall Send
 
 //@ func handleTime
-//@   prop C14
+//@   prop C14 C02
+//@   consumes req
 //@   nocall MakeRequest
 //@   nocall Send
 
 //@ func handleHotKey
-//@   prop C14 C19
+//@   prop C14 C19 C02
+//@   consumes req
 //@   nocall MakeRequest
 //@   nocall Send
 
@@ -641,3 +660,43 @@ package redis
 //@   requires u != nil && u.done != nil && !closed(u.done)
 //@   modifies all
 //@   ensures @done-closed-on-every-return closed(u.done)
+
+// ---- C02: every request is completed or handed on exactly once (linear completion tokens) ---------
+
+//@ func (*upstream).MakeRequest
+//@   prop C02 C03
+//@   consumes req
+//@   requires u != nil && req != nil
+
+//@ func (*upstream).MakeRequestToHost
+//@   prop C02 C04 C20
+//@   consumes req
+//@   requires u != nil && req != nil
+
+//@ func (*client).Send
+//@   prop C02
+//@   consumes req
+//@   requires c != nil && req != nil
+
+//@ func (*client).loopWrite
+//@   prop C02 C01
+//@   flag tokens
+//@   requires c != nil
+
+//@ func (*client).loopRead
+//@   prop C02 C01
+//@   flag tokens
+//@   requires c != nil
+
+//@ func (*client).drainRequests
+//@   prop C02
+//@   flag tokens
+//@   requires c != nil
+
+//@ func handleSimpleCommand$1
+//@   prop C02
+//@   consumes req
+
+//@ func handleEval$1
+//@   prop C02
+//@   consumes req
